@@ -62,6 +62,11 @@ func (e *Exec) timeUnix(sec, nsec Int) TimeV {
 	if nsec.isConc() && nsec.signed() >= 0 && nsec.signed() < nsPerSec {
 		return TimeV{Sec: sec, Nsec: nsec}
 	}
+	if sec.isConc() && sec.signed() == 0 {
+		// time.Unix(0, ns): exactly ns nanoseconds since the epoch
+		ns := nsec
+		return TimeV{NS: &ns}
+	}
 	panic(inconclusive{"time.Unix with symbolic nanoseconds outside the modelled patterns"})
 }
 
@@ -296,8 +301,13 @@ func init() {
 		return e.timeUnix(i64(args[0].(Int)), i64(args[1].(Int)))
 	}
 	ident := func(e *Exec, fn *ssa.Function, args []value) value { return args[0] }
-	stubs["(time.Time).UTC"] = ident
-	stubs["(time.Time).Local"] = ident
+	noLoc := func(e *Exec, fn *ssa.Function, args []value) value {
+		t := args[0].(TimeV)
+		t.Loc = nil
+		return t
+	}
+	stubs["(time.Time).UTC"] = noLoc
+	stubs["(time.Time).Local"] = noLoc // the process zone is assumed to be UTC
 	stubs["(time.Time).Round"] = ident
 	stubs["(time.Time).In"] = func(e *Exec, fn *ssa.Function, args []value) value {
 		t := args[0].(TimeV)
